@@ -15,7 +15,7 @@ HARNESSES = {
 }
 
 LS = 'harper-ls'
-ALPHA = "{LF, CR, 'a', TAB, U+1F600, U+0301}"
+ALPHA = "{LF, CR, 'a', U+4E2D, U+1F600, U+0301}"
 
 
 def _pc(name, n, says, **kw):
